@@ -208,6 +208,26 @@ def y1(rep, src):
     if n_ren < 4:
         rep.violation("Y1", key + "@rename", "expected the four tracked columns to be renamed per side, found %d" % n_ren, f.where())
     strategy_arms(rep, "Y1", f, key)
+    # Y7: non-null unit id.  The ON clause equates both ids, so matched rows may take either; rows that an outer join keeps
+    # from the side NOT providing the id get a NULL unit id unless the ids are coalesced or such operators are refused.
+    rep.rule(
+        "Y7",
+        "PrivacyUnitTracking::join: every output row has a non-null unit id: the output id coalesces both sides' ids, or the join operators that keep unmatched rows of the other side "
+        "(RightOuter / FullOuter when the id is read from the left) are refused or handled in their own arm",
+        floor=1,
+        necessary="an unmatched right row of a RIGHT / FULL join gets _PRIVACY_UNIT_ = NULL: it belongs to no unit, escapes the per-unit clipping (NULL never matches the scale-factor join) or is dropped",
+    )
+    pu_e = got.get("pu")
+    sides_in_pu = set()
+    if pu_e is not None:
+        for x in walk(pu_e):
+            fs2 = fmt_side(x) if x["k"] == "macro" else None
+            if fs2 and fs2[1] == "pu":
+                sides_in_pu.add(fs2[0])
+    branches_on_operator = any(m["e"]["k"] == "path" and m["e"]["p"] in ("operator",) or "operator" in show(m["e"], 0) for m in find(f.body, "match") if not show(m["e"], 0).endswith("strategy"))
+    rep.instance("Y7", key + "@non-null-unit", {"unit_id_read_from": sorted(sides_in_pu), "branches_on_join_operator": bool(branches_on_operator)})
+    if sides_in_pu != {"left", "right"} and not branches_on_operator:
+        rep.violation("Y7", key + "@non-null-unit", "the output unit id is read from the %s side only, for every join operator: unmatched rows kept by an outer join of the other side get a NULL unit id" % "/".join(sorted(sides_in_pu)), f.where())
 
 
 def strategy_arms(rep, rid, f, key):
